@@ -616,7 +616,8 @@ def hellinger(x, y):
     elif l1_norm_x == 0 or l1_norm_y == 0:
         return 1.0
     else:
-        return np.sqrt(1 - result / np.sqrt(l1_norm_x * l1_norm_y))
+        # the ratio can round just above 1 for (nearly) proportional inputs
+        return np.sqrt(max(0.0, 1 - result / np.sqrt(l1_norm_x * l1_norm_y)))
 
 
 @numba.njit(
